@@ -421,6 +421,9 @@ func runRLockWrite(p *core.Program, r *core.Report, rule string) {
 				_, f := core.FieldName(fa)
 				return fa.X, f
 			}
+		case *ssa.Global:
+			// a package-level mutex guards the package-level variables
+			return a, a.Name()
 		}
 		return nil, ""
 	}
@@ -499,6 +502,11 @@ func runRLockWrite(p *core.Program, r *core.Report, rule string) {
 			if root == base && path != "" {
 				writes[ins] = path
 			}
+			if bg, ok := base.(*ssa.Global); ok {
+				if g, ok := root.(*ssa.Global); ok && g != bg && g.Pkg == bg.Pkg {
+					writes[ins] = " package variable " + g.Name() + path
+				}
+			}
 		})
 		if len(writes) == 0 {
 			r.OK(rule, core.FnKey(fn)+" holds "+mfield+".RLock and writes no field of the same struct", p.Pos(fn.Pos()), "no store into the receiver while only the read lock is held")
@@ -542,7 +550,7 @@ func runRLockWrite(p *core.Program, r *core.Report, rule string) {
 		_ = deferUnlock
 		walk(fn.Blocks[0], 0)
 		for path, ins := range bad {
-			r.Bad(rule, core.FnKey(fn)+" writes "+path+" under "+mfield+".RLock", p.InsPos(ins), "a field of the struct is written while only its read lock is held: concurrent readers race on it and can observe a half-updated value")
+			r.Bad(rule, core.FnKey(fn)+" writes "+path+" under "+mfield+".RLock", p.InsPos(ins), "shared state guarded by the mutex is written while only its read lock is held: concurrent readers race on it (for a map: fatal error: concurrent map writes)")
 		}
 		for path, ins := range okw {
 			if _, isBad := bad[path]; !isBad {
